@@ -315,7 +315,7 @@ func paramsEqual(a, b *channel.Params) string {
 
 // CloneSubjects lists the cloneable types and shapes.
 func CloneSubjects(seed int64) []cloneSubject {
-	var subs []cloneSubject
+	subs := actionMachineSubjects(seed)
 	shapes := []cloneShape{
 		{Assets: 1, Parts: 2, Locked: 0},
 		{Assets: 1, Parts: 2, Locked: 0, EmptyLocked: true},
